@@ -213,6 +213,56 @@ pub fn complete_replies(flushed: &[u8], conv: &Conv) -> usize {
     n
 }
 
+/// `complete_replies` as a stateful closure for long conversations: the flushed output only ever
+/// grows, so the bytes of replies already counted are not parsed again (a lock-step client over a
+/// session of 70 000 commands would otherwise cost quadratic time).
+pub fn incremental_replies(conv: &Conv) -> impl FnMut(&[u8]) -> usize {
+    // what the client expects, in order: the greeting (None), the auth reply, one per replying command
+    let mut expected: Vec<Option<RespKind>> = vec![None, Some(RespKind::OkErr)];
+    expected.extend(conv.cmds.iter().filter(|c| c.resp != RespKind::None).map(|c| Some(c.resp)));
+    let mut off = 0usize;
+    let mut stage = 0usize;
+    move |flushed: &[u8]| {
+        while stage < expected.len() && off <= flushed.len() {
+            let tail = &flushed[off..];
+            let mut pkts = Vec::new();
+            let mut p = 0;
+            while tail.len() - p >= 4 {
+                let len = tail[p] as usize | (tail[p + 1] as usize) << 8 | (tail[p + 2] as usize) << 16;
+                if tail.len() - p - 4 < len {
+                    break;
+                }
+                pkts.push(RawPkt { seq: tail[p + 3], start: p + 4, len });
+                p += 4 + len;
+            }
+            while let Some(l) = pkts.last() {
+                if l.len == MAXP {
+                    pkts.pop();
+                } else {
+                    break;
+                }
+            }
+            let msgs = match reassemble(tail, &pkts) {
+                Ok(m) => m,
+                Err(_) => break,
+            };
+            let mut mc = MsgCur { msgs: &msgs, i: 0 };
+            let ok = match expected[stage] {
+                None => mc.next("greeting").is_ok(),
+                Some(k) => parse_response(&mut mc, k).is_ok(),
+            };
+            if !ok || mc.i == 0 {
+                break;
+            }
+            let last = &msgs[mc.i - 1];
+            let lp = &pkts[last.first_pkt + last.n_pkts - 1];
+            off += lp.start + lp.len;
+            stage += 1;
+        }
+        stage
+    }
+}
+
 /// After a command that must be refused without reaching the shim, the server may say goodbye
 /// with one ERR packet (or say nothing): anything else is stray output.
 pub fn trailing_is_at_most_one_err(d: &Decoded) -> Result<(), String> {
